@@ -477,7 +477,7 @@ class Exec:
                 base = self.need_not_none(base, st, node, f".{attr}")
         if base is None:
             if spec:
-                raise Unsupported(f"None.{attr} in specification")
+                raise SpecNoneDeref(f"None.{attr} in specification")
             self.need_not_none(base, st, node, f".{attr}")
         if isinstance(base, ObjV) and attr == "__class__":
             tag = base.fields.get("__cls__")
